@@ -217,13 +217,33 @@ class Discharger(object):
       m = s.model() if r == z3.sat else None
       s.pop()
       if r == z3.unknown:
-        # the incremental solver (push/pop) uses a weaker nonlinear engine: retry once with a fresh, non-incremental one
+        # z3's nonlinear engine is sensitive to term numbering and its random seed: an obligation that is decided in
+        # under a second on one attempt can stay undecided for a minute on the next.  A few short, differently
+        # seeded attempts (alternately fresh and push/pop solvers) come first ...
+        self.timeout_ms = min(full, 10000)
+        try:
+          for seed in range(1, 7):
+            if self.deadline and time.time() > self.deadline:
+              break
+            s3 = self._solver(pc, ax)
+            s3.set("random_seed", seed)
+            if seed % 2 == 0:
+              s3.push()
+            s3.add(z3.Not(v.formula))
+            r = self._check(s3)
+            if r != z3.unknown:
+              m = s3.model() if r == z3.sat else None
+              break
+        finally:
+          self.timeout_ms = full
+      if r == z3.unknown and full > 10000:
+        # ... then a fresh, non-incremental solver with the whole budget (the push/pop solver uses a weaker nonlinear engine)
         s2 = self._solver(pc, ax)
         s2.add(z3.Not(v.formula))
         r = self._check(s2)
         m = s2.model() if r == z3.sat else None
-        if r == z3.unknown and full > 6000:
-          # some VCs are decided by the incremental engine only when it is given the whole budget
+        if r == z3.unknown:
+          # ... and the incremental one again: some VCs are decided by it only when it is given the whole budget
           s.push()
           s.add(z3.Not(v.formula))
           r = self._check(s)
